@@ -2,7 +2,8 @@
 //
 //	part (i)   hist.go/gen.go/model.go  edns+cache+stub histories under virtual time
 //	part (ii)  gen.go localEpisode      request-local causes, then another client
-//	bursts     burst.go                 probe election after expiry (race child)
+//	bursts     burst.go                 probe election after expiry (race child): same name, sibling names,
+//	                                    and requests mixed in ECS audience / type / CD under one failed zone
 //	part (iii) full.go                  real resolver + scripted authorities (authsim)
 package main
 
@@ -201,6 +202,11 @@ func requireHist(r *vlib.Run) {
 		"killswitch_histories": 8, "killswitch_queries": 60, "killswitch_queries_over_seeded_state": 16,
 		"state_checks": 2500, "state_checks_after_eviction_or_reset": 300, "virtual_advances": 500,
 		"local_failures_injected": 60,
+		// "a useful answer resets the backoff", for every kind of state incl. what
+		// only FailureCache.ResetMatching clears: fail.. -> expiry -> useful ->
+		// fail: white-box dump judged, then the black-box probe at the minimum
+		"restart_state_checked_question": 6, "restart_state_checked_scoped-question": 5, "restart_state_checked_zone": 20,
+		"restart_probe_at_min_question": 6, "restart_probe_at_min_scoped-question": 5, "restart_probe_at_min_zone": 15,
 	} {
 		r.Require(k, v)
 	}
@@ -213,7 +219,10 @@ func requireHist(r *vlib.Run) {
 func requireBurst(r *vlib.Run) {
 	for k, v := range map[string]int64{
 		"burst_histories": 50, "bursts_judged": 120, "bursts_count_bound_checked": 60,
-		"bursts_with_successful_probe": 20, "burst_same-name": 40, "burst_siblings": 40,
+		"bursts_with_successful_probe": 20, "burst_same-name": 30, "burst_siblings": 30, "burst_mixed": 30,
+		// probe election for requests that carry an ECS audience
+		"bursts_judged_mixed_scoped_audiences": 8, "bursts_count_bound_checked_mixed_scoped_audiences": 3,
+		"bursts_judged_one_scoped_audience_siblings": 8, "bursts_count_bound_checked_one_scoped_audience": 10,
 		"burst_parked_followers_max": 40, "burst_reply_cached_failure": 300, "burst_reply_shed_or_local": 100,
 		"burst_upstream_calls_1": 20, "burst_upstream_calls_2": 20,
 	} {
